@@ -24,25 +24,25 @@ func TestMain(m *testing.M) { suite.Main(m) }
 const defaultMaxWait = time.Second
 
 type COp struct {
-	Op      string `json:"op"` // next | sleep | close | drain
+	Op      string `json:"op"`                // next | sleep | close | drain
 	Timeout int    `json:"timeout,omitempty"` // ms; 0 = no deadline
 	Ms      int    `json:"ms,omitempty"`
 }
 
 type Plan struct {
-	Size     int   `json:"size"`            // batchSize / fullness threshold
-	Func     bool  `json:"func,omitempty"`  // use BatchFunc with a generated predicate
-	Sizes    []int `json:"sizes,omitempty"` // BatchFunc: per-batch thresholds, cycled
-	FullLat  int   `json:"fulllat,omitempty"` // ms of fake latency inside full()
-	Gaps     []int `json:"gaps"`            // ms before each item
-	EndGap   int   `json:"endgap,omitempty"`
-	EndErr   bool  `json:"enderr,omitempty"`
-	ErrKind  int   `json:"errkind,omitempty"` // 0 plain sentinel, 1 wraps context.Canceled, 2 wraps context.DeadlineExceeded
-	Deaf     bool  `json:"deaf,omitempty"` // the source ignores its context and never ends (it keeps answering)
+	Size    int   `json:"size"`              // batchSize / fullness threshold
+	Func    bool  `json:"func,omitempty"`    // use BatchFunc with a generated predicate
+	Sizes   []int `json:"sizes,omitempty"`   // BatchFunc: per-batch thresholds, cycled
+	FullLat int   `json:"fulllat,omitempty"` // ms of fake latency inside full()
+	Gaps    []int `json:"gaps"`              // ms before each item
+	EndGap  int   `json:"endgap,omitempty"`
+	EndErr  bool  `json:"enderr,omitempty"`
+	ErrKind int   `json:"errkind,omitempty"` // 0 plain sentinel, 1 wraps context.Canceled, 2 wraps context.DeadlineExceeded
+	Deaf    bool  `json:"deaf,omitempty"`    // the source ignores its context and never ends (it keeps answering)
 	// Huge: maxWait is the largest Duration ("never hand out an underfilled batch on time") instead of 1s
 	Huge bool `json:"huge,omitempty"`
 	// Scribble: the consumer, which owns every batch it was handed, appends to it and overwrites its spare capacity
-	Scribble bool `json:"scribble,omitempty"`
+	Scribble bool  `json:"scribble,omitempty"`
 	Consumer []COp `json:"consumer"`
 }
 
@@ -200,7 +200,7 @@ func script(p Plan, out *vk.Outcome) error {
 		ctx := context.Background()
 		cancel := func() {}
 		if timeout > 0 {
-			ctx, cancel = context.WithTimeout(ctx, timeout)
+			ctx, cancel = sk.WithTimeout(ctx, timeout)
 		}
 		r := nextRec{tc: time.Now(), timeout: timeout}
 		b, err := s.Next(ctx)
